@@ -20,6 +20,34 @@ RULE = ("history = (optionally) a fault-free mirror of V1, then a run against V2
         "non-trivial+distinct = crash points with at least one mutation before and after, keyed by (class, op at crash, phase)")
 
 
+class _OsOfAnotherProcess:
+    """stands in for the `os` module inside the tool during the run after a crash: that run is another process than the one
+    that died, so whatever the tool derives from its process id differs"""
+
+    def __init__(self, pid):
+        self._pid = pid
+
+    def __getattr__(self, name):
+        return getattr(os, name)
+
+    def getpid(self):
+        return self._pid
+
+
+class other_process:
+    _n = [0]
+
+    def __enter__(self):
+        import apt_mirror.apt_mirror as am
+        self.am = am
+        self.saved = am.os
+        other_process._n[0] += 1
+        am.os = _OsOfAnotherProcess(os.getpid() + 100000 + other_process._n[0])
+
+    def __exit__(self, *a):
+        self.am.os = self.saved
+
+
 def leftovers(sb):
     out = []
     for dp, dns, fns in os.walk(sb.base):
@@ -143,8 +171,15 @@ def run_one(chk, sseed, cls, npoints=6, chunk_level=False, from_empty=False, nex
         alias_budget = [6]
         byhash_done = [False]
 
+        probe_budget = [2]
+
         def on_fs(idx, op, paths):
             rel = os.path.relpath(paths[0], w.sb.base)
+            if ".apt_mirror_aio" in rel and op in ("remove", "unlink") and probe_budget[0] > 0 and idx not in points:
+                # directed: inside the start-up storage probe, after the probe file was written and before it is removed
+                probe_budget[0] -= 1
+                chk.count("crash_points_inside_the_storage_probe")
+                take(idx, f"inside-probe {op} {rel}")
             if byhash_done[0]:
                 byhash_done[0] = False
                 if alias_budget[0] > 0 and idx not in points:
@@ -184,7 +219,8 @@ def run_one(chk, sseed, cls, npoints=6, chunk_level=False, from_empty=False, nex
                 chk.violation(sig, r, f"crash before mutation {k} ({label}): {msg}")
             lock_left = os.path.exists(os.path.join(sb.var, "apt-mirror.lock"))
             left_before = leftovers(sb)
-            res3 = run_e2e.execute(sb, [final], stores3, {}, vloop.RandomChooser(rng.randrange(1 << 30)))
+            with other_process():
+                res3 = run_e2e.execute(sb, [final], stores3, {}, vloop.RandomChooser(rng.randrange(1 << 30)))
             if res3.exit != 0:
                 chk.violation("rerun-after-crash-fails", r, f"crash before mutation {k} ({label}); rerun exits {res3.exit} "
                               f"{res3.exception!r}; lock file left: {lock_left}")
